@@ -802,15 +802,17 @@ class DistGeometric(DistDiscrete):
         ------
         TypeError: when stream is not implementing StreamInterface
         TypeError: when p is not a float
-        ValueError: when p < 0 or p > 1
+        ValueError: when p <= 0 or p > 1 (without a chance of success the
+            number of failures before the first success is not finite)
         """
         super().__init__(stream)
         if not isinstance(p, float):
             raise TypeError(f"parameter p {p} is not a float")
-        if not 0 <= p <= 1:
-            raise ValueError(f"parameter p {p} not between 0 and 1")
+        if not 0 < p <= 1:
+            raise ValueError(f"parameter p {p} not in (0, 1]")
         self._p = p
-        self._lnp = math.log(1.0 - self._p)
+        # p == 1: every trial succeeds, log(1 - p) is minus infinity
+        self._lnp = math.log(1.0 - self._p) if self._p < 1.0 else -math.inf
         
     def draw(self) -> int:
         """
@@ -871,21 +873,23 @@ class DistNegBinomial(DistDiscrete):
         TypeError: when stream is not implementing StreamInterface
         TypeError: when p is not a float
         TypeError: when s is not an int
-        ValueError: when p < 0 or p > 1 or s <= 0
+        ValueError: when p <= 0 or p > 1 or s <= 0 (without a chance of 
+            success the number of failures is not finite)
         """
         super().__init__(stream)
         if not isinstance(p, float):
             raise TypeError(f"parameter p {p} is not a float")
         if not isinstance(s, int):
             raise TypeError(f"parameter s {s} is not an int")
-        if not 0 <= p <= 1:
-            raise ValueError(f"parameter p {p} not between 0 and 1")
+        if not 0 < p <= 1:
+            raise ValueError(f"parameter p {p} not in (0, 1]")
         if s <= 0:
             raise ValueError(f"parameter s {s} <= 0")
         self._p = p
         self._s = s
         # helper variable equal to ln(1-p) to avoid repetitive calculation.
-        self._lnp = math.log(1.0 - self._p)
+        # p == 1: every trial succeeds, log(1 - p) is minus infinity
+        self._lnp = math.log(1.0 - self._p) if self._p < 1.0 else -math.inf
         
     def draw(self) -> int:
         """
